@@ -25,7 +25,7 @@ def corpus_cases():
     return out
 
 
-def run(ctx, prop_files, flavours, n_quick, n_thorough, what):
+def run(ctx, prop_files, flavours, n_quick, n_thorough, what, note=None):
     proof = vlib.coq_prove(ctx, prop_files, leaves=['queue', 'queueconc'])
     res = vlib.build_many(ctx, [dict(name='qconc', src='qconc.cpp', defs=[])])
     binary, err = res['qconc']
@@ -54,7 +54,7 @@ def run(ctx, prop_files, flavours, n_quick, n_thorough, what):
         'monitor_alarms': st['monitor_alarms'], 'schedules_ending_with_all_threads_blocked': st['deadlocks'],
         'header_sha': vlib.sha(os.path.join(vlib.REPO, 'include/eventpp/eventqueue.h')),
     })
-    ctx.assumptions += ['PARTIAL: see level_note; the invariant over all interleavings is checked by schedule replay, not proved']
+    ctx.assumptions += [note or 'PARTIAL: see level_note; the invariant over all interleavings is checked by schedule replay, not proved']
 
 
 def replay(ctx, path):
